@@ -12,19 +12,34 @@
 (***************************************************************************)
 EXTENDS Naturals, FiniteSets
 
-CONSTANTS Threads, MaxInodes,
-          Blocking,            \* TRUE: META_LOCK (lock_exclusive waits); FALSE: INDEX_WRITER_LOCK (try_lock_exclusive)
-          UnlinkOnRelease,     \* FALSE = code
-          UnlinkOnRefusal      \* FALSE = code
+CONSTANTS
+  \* @type: Set(Str);
+  Threads,
+  \* @type: Int;
+  MaxInodes,
+  \* @type: Bool;
+  Blocking,            \* TRUE: META_LOCK (lock_exclusive waits); FALSE: INDEX_WRITER_LOCK (try_lock_exclusive)
+  \* @type: Bool;
+  UnlinkOnRelease,     \* FALSE = code
+  \* @type: Bool;
+  UnlinkOnRefusal      \* FALSE = code
 
-VARIABLES pathIno,   \* inode the path names (0: no such file)
-          nextIno,
-          lockedBy,  \* [inode -> thread or 0]
-          pc         \* [thread -> [st: "idle" | "opened" | "holding", ino]]
+VARIABLES
+  \* @type: Int;
+  pathIno,   \* inode the path names (0: no such file)
+  \* @type: Int;
+  nextIno,
+  \* @type: Int -> Str;
+  lockedBy,  \* [inode -> thread or Nobody]
+  \* @type: Str -> {st: Str, ino: Int};
+  pc         \* [thread -> [st: "idle" | "opened" | "holding", ino]]
 vars == <<pathIno, nextIno, lockedBy, pc>>
 
+Nobody == "nobody"
+\* (written as a filter of a constant range: Apalache does not take 1..MaxInodes; at most 8 inodes)
+Inodes == {i \in 1..8 : i <= MaxInodes}
 Idle == [st |-> "idle", ino |-> 0]
-Init == pathIno = 0 /\ nextIno = 1 /\ lockedBy = [i \in 1..MaxInodes |-> 0] /\ pc = [t \in Threads |-> Idle]
+Init == pathIno = 0 /\ nextIno = 1 /\ lockedBy = [i \in Inodes |-> Nobody] /\ pc = [t \in Threads |-> Idle]
 
 \* OpenOptions::new().write(true).create(true).open(path)
 Open(t) ==
@@ -36,20 +51,20 @@ Open(t) ==
   /\ UNCHANGED lockedBy
 \* flock(LOCK_EX): granted when nobody holds the inode
 Acquire(t) ==
-  /\ pc[t].st = "opened" /\ lockedBy[pc[t].ino] = 0
+  /\ pc[t].st = "opened" /\ lockedBy[pc[t].ino] = Nobody
   /\ lockedBy' = [lockedBy EXCEPT ![pc[t].ino] = t]
   /\ pc' = [pc EXCEPT ![t].st = "holding"]
   /\ UNCHANGED <<pathIno, nextIno>>
 \* try_lock_exclusive on a held inode: LockBusy, the handle is closed
 Refused(t) ==
-  /\ ~Blocking /\ pc[t].st = "opened" /\ lockedBy[pc[t].ino] # 0
+  /\ ~Blocking /\ pc[t].st = "opened" /\ lockedBy[pc[t].ino] # Nobody
   /\ pc' = [pc EXCEPT ![t] = Idle]
   /\ pathIno' = IF UnlinkOnRefusal THEN 0 ELSE pathIno
   /\ UNCHANGED <<nextIno, lockedBy>>
 \* the guard is dropped: the handle is closed (the lock goes with it)
 Release(t) ==
   /\ pc[t].st = "holding"
-  /\ lockedBy' = [lockedBy EXCEPT ![pc[t].ino] = 0]
+  /\ lockedBy' = [lockedBy EXCEPT ![pc[t].ino] = Nobody]
   /\ pc' = [pc EXCEPT ![t] = Idle]
   /\ pathIno' = IF UnlinkOnRelease THEN 0 ELSE pathIno
   /\ UNCHANGED nextIno
@@ -61,4 +76,16 @@ Spec == Init /\ [][Next]_vars
 Mutex == Cardinality({t \in Threads : pc[t].st = "holding"}) <= 1
 \* the code never needs a second inode
 OneInode == nextIno <= 2
+
+\* Inductive invariant of the code as it is (no unlink), for any number of inodes: checked with Apalache
+\* (LockProtoInd.tla).  Only inode 1 ever exists; a thread holds the guard iff inode 1 is locked by it.
+IndInv ==
+  /\ MaxInodes >= 1
+  /\ pathIno \in {0, 1} /\ nextIno = pathIno + 1
+  /\ lockedBy \in [Inodes -> Threads \cup {Nobody}]
+  /\ pc \in [Threads -> [st : {"idle", "opened", "holding"}, ino : {0, 1}]]
+  /\ \A t \in Threads : pc[t].st = "idle" => pc[t].ino = 0
+  /\ \A t \in Threads : pc[t].st # "idle" => (pc[t].ino = 1 /\ pathIno = 1)
+  /\ \A t \in Threads : (pc[t].st = "holding") <=> (lockedBy[1] = t)
+  /\ \A i \in Inodes \ {1} : lockedBy[i] = Nobody
 =============================================================================
